@@ -273,6 +273,8 @@ def check_compiled(case, res):
     g = case.get("ast")
     if not g:
         return bad
+    if any(b[0] == "sup" and b[1][0] == "ref" for _, _, b in g["rules"]):
+        return bad                         # `A: B-;` aliases B's node and moves the flag: not compared
     names = {n for n, _, _ in g["rules"]} | set(peggen.BASE) | {"CB", "CL", "Comment"}
     alias = {n: b[1] for n, p_, b in g["rules"] if b[0] == "ref" and not p_}
     roots = {}
